@@ -193,7 +193,20 @@ pub fn run_case(ctx: &Ctx, case: &Case) -> Outcome {
                     } else if untouched {
                         "untouched-key-changed"
                     } else {
-                        "value-or-version-never-stored"
+                        // which half of the pair is wrong? (the write protocol has two known windows: a key record updated
+                        // in place with two syscalls, version first; and values that sit in the 250-byte writer buffer
+                        // while their key record is already on disk. A value of buffer size or more is written through
+                        // before its key is touched: it must never be missing.)
+                        let lv = l.map(|x| &x.0);
+                        if lv.is_some() && lv == b.map(|x| &x.0) {
+                            "old-value-under-new-version"
+                        } else if lv.is_some() && lv == af.map(|x| &x.0) {
+                            "new-value-under-old-version"
+                        } else if af.map(|x| x.0.len()).unwrap_or(0) >= 250 {
+                            "written-through-value-not-on-disk"
+                        } else {
+                            "buffered-value-not-on-disk"
+                        }
                     };
                     let sh = |x: Option<&(String, i32)>| x.map(|(v, ver)| format!("{:?}@{}", if v.len() > 30 { format!("{}…({}B)", &v[..v.char_indices().nth(20).map(|c| c.0).unwrap_or(v.len())], v.len()) } else { v.clone() }, ver));
                     return Some((format!("C11|{}|{}|before-{}", kind, mode, cls), format!("{}: key {:?} before={:?} being-written={:?} loaded={:?}", at, k, sh(b), sh(af), sh(l))));
